@@ -1,7 +1,7 @@
 //! C20 — generation cost stays polynomial in shader size and call depth.
 //!
 //! Oracle: wall clock. Each shape is a few hundred lines at most; the library runs on a helper
-//! thread and must answer within LIMIT (20 s — the statement says "well under a second", so this is
+//! thread and must answer within LIMIT (10 s — the statement says "well under a second", so this is
 //! a very generous bound that only exponential behaviour misses).
 
 use crate::common::*;
@@ -10,7 +10,7 @@ use std::time::Duration;
 
 pub struct C20;
 
-const LIMIT: Duration = Duration::from_secs(20);
+const LIMIT: Duration = Duration::from_secs(10);
 /// after this many timeouts the remaining cases are not run (each leaks a spinning thread)
 const MAX_TIMEOUTS: usize = 2;
 static TIMEOUTS: AtomicUsize = AtomicUsize::new(0);
@@ -143,6 +143,55 @@ pub fn shape(name: &str, d: usize) -> Option<String> {
             }
             return Some(s2);
         }
+        // the recursive call sits in BOTH arms of an if / in every case of a switch (a memo that is cloned per branch forgets it)
+        "branch-diamond" => {
+            s.push_str("fn q0(x: u32) { data[0] = u.x + f32(x); }\n");
+            for i in 1..=d {
+                s.push_str(&format!("fn q{i}(x: u32) {{ if (x > {i}u) {{ q{0}(x); }} else {{ q{0}(x + 1u); }} }}\n", i - 1));
+            }
+            s.push_str(&entries(&format!("q{d}(3u);")));
+        }
+        "switch-diamond" => {
+            s.push_str("fn q0(x: u32) -> f32 { return data[0] + u.x + f32(x); }\n");
+            for i in 1..=d {
+                s.push_str(&format!("fn q{i}(x: u32) -> f32 {{ var r = 0.0; switch x {{ case 0u: {{ r = q{0}(x); }} case 1u: {{ r = q{0}(x + 1u); }} default: {{ r = q{0}(x + 2u); }} }} return r; }}\n", i - 1));
+            }
+            s.push_str(&entries(&format!("data[1] = q{d}(1u);")));
+        }
+        // PURE helpers (they reach no global at all) with two call sites per level, below entry points that do use globals
+        // (a per-function cache that cannot tell "computed: nothing" from "not computed" re-walks them at every call site)
+        "pure-ladder" => {
+            s.push_str("fn p0(x: f32) -> f32 { return x * 0.5; }\n");
+            for i in 1..=d {
+                s.push_str(&format!("fn p{i}(x: f32) -> f32 {{ return p{0}(x) + p{0}(x + 1.0); }}\n", i - 1));
+            }
+            s.push_str(&entries(&format!("data[1] = p{d}(u.x);")));
+        }
+        "pure-branch-ladder" => {
+            s.push_str("fn p0(x: f32) -> f32 { return x * 0.5; }\n");
+            for i in 1..=d {
+                s.push_str(&format!("fn p{i}(x: f32) -> f32 {{ if (x > 1.0) {{ return p{0}(x); }} else {{ return p{0}(x + 1.0); }} }}\n", i - 1));
+            }
+            s.push_str("fn update() { data[0] = p");
+            s.push_str(&format!("{d}(u.y); }}\n"));
+            s.push_str(&entries("update();"));
+        }
+        // a struct diamond used by a buffer NEXT TO structs that are not reachable from any variable (a vertex input, an unused
+        // struct): a per-struct reachability search without a visited set enumerates all 2^d paths exactly when the answer is "no"
+        "struct-diamond-and-unreachable" => {
+            let mut s2 = String::from("struct S0 { x: f32, y: f32 }\n");
+            for i in 1..=d {
+                s2.push_str(&format!("struct S{i} {{ left: S{0}, right: S{0} }}\n", i - 1));
+            }
+            s2.push_str("struct VertexIn { @location(0) position: vec4<f32>, @location(1) uv: vec2<f32> }\nstruct InstanceIn { @location(2) offset: vec4<f32> }\nstruct NeverUsed { q: mat2x2<f32> }\nstruct AlsoUnused { a: f32, b: NeverUsed }\nstruct LocalOnly { t: vec3<f32> }\n");
+            s2.push_str(&format!("@group(0) @binding(0) var<storage, read_write> big: S{d};\n"));
+            s2.push_str("@compute @workgroup_size(1)\nfn cs_main() { big.left");
+            for _ in 1..d {
+                s2.push_str(".left");
+            }
+            s2.push_str(".x = 1.0; }\n@vertex\nfn vs_main(v: VertexIn, i: InstanceIn) -> @builtin(position) vec4<f32> { var l: LocalOnly; return v.position + i.offset + vec4<f32>(l.t, 0.0); }\n");
+            return Some(s2);
+        }
         _ => return None,
     }
     Some(s)
@@ -153,14 +202,14 @@ impl Property for C20 {
         "C20"
     }
     fn rule(&self) -> &'static str {
-        "Fixed shape families at growing depth (smallest first): statement-call chains, value-returning call chains, diamonds (f_i calls f_{i-1} twice), value diamonds inside if/else/continuing, two-function ladders, wide fan-in (4*d wrappers over a shared 3-way diamond) up to depth 64 with three entry points, nested struct diamonds / triples / array diamonds S_i { a: S_{i-1}, b: S_{i-1} } and diamonds through distinct wrapper structs Level_i { l: LeftLevel_i, r: RightLevel_i } with LeftLevel_i / RightLevel_i { x: Level_{i+1} (or array<Level_{i+1}, n>) } up to depth 28, used by buffers; oracle = wall clock: create_shader_module on a helper thread must return Ok within 20 s (recv_timeout); after 2 timeouts the remaining shapes are not run."
+        "Fixed shape families at growing depth (smallest first): statement-call chains, value-returning call chains, diamonds (f_i calls f_{i-1} twice), value diamonds inside if/else/continuing, two-function ladders, wide fan-in (4*d wrappers over a shared 3-way diamond) up to depth 64 with three entry points, nested struct diamonds / triples / array diamonds S_i { a: S_{i-1}, b: S_{i-1} } and diamonds through distinct wrapper structs Level_i { l: LeftLevel_i, r: RightLevel_i } with LeftLevel_i / RightLevel_i { x: Level_{i+1} (or array<Level_{i+1}, n>) } up to depth 28, used by buffers; oracle = wall clock: create_shader_module on a helper thread must return Ok within 10 s (recv_timeout; the unchanged library needs milliseconds); after 2 timeouts the remaining shapes are not run."
     }
 
     fn cases(&self, _seed: u64, tier: Tier) -> Vec<Case> {
         let mut plan: Vec<(&str, usize)> = vec![];
         let call_depths: &[usize] = if tier == Tier::Quick { &[24, 40, 64] } else { &[8, 16, 24, 28, 32, 40, 48, 56, 64] };
         for &d in call_depths {
-            for s in ["stmt-chain", "value-chain", "diamond", "value-diamond", "ladder"] {
+            for s in ["stmt-chain", "value-chain", "diamond", "value-diamond", "ladder", "branch-diamond", "switch-diamond", "pure-ladder", "pure-branch-ladder"] {
                 plan.push((s, d));
             }
         }
@@ -171,6 +220,7 @@ impl Property for C20 {
         for &d in if tier == Tier::Quick { &[22usize, 28][..] } else { &[12usize, 16, 20, 24, 26, 28][..] } {
             plan.push(("struct-diamond", d));
             plan.push(("struct-array-diamond", d));
+            plan.push(("struct-diamond-and-unreachable", d));
         }
         for &d in if tier == Tier::Quick { &[15usize, 18][..] } else { &[8usize, 12, 15, 17, 18][..] } {
             plan.push(("struct-triple", d));
